@@ -702,6 +702,17 @@ func genC10(g *G) {
 		}
 		g.Emit(op, tag)
 	}
+	// --- a definition with exactly the maximal number of streams per channel (10 000) round-trips like any other
+	for ver := 0; ver <= 1; ver++ {
+		for _, n := range []int{9999, 10000} {
+			st := make([]any, n)
+			for k := range st {
+				st[k] = J{"sid": S(k + 1), "agg": S(1 + k%3)}
+			}
+			o := J{"stage": "production", "ts": "1700000000000000000", "defs": []any{J{"id": "2", "def": J{"format": "2", "opts": "", "streams": st}}}, "va": []any{}, "aggs": []any{}}
+			g.EmitImpl(J{"op": fmt.Sprintf("outcome.v%d.encode", ver), "outcome": o, "shuffles": 0}, "streams-at-the-limit")
+		}
+	}
 	// --- implementation only: arbitrary and mutated bytes
 	nb := g.N(600, 20000)
 	for i := 0; i < nb; i++ {
